@@ -68,7 +68,7 @@ def run(ctx):
 
     def replay_of(kc):
         kind, case = kc
-        d = {k: v for k, v in case.items() if k != "_obs"}
+        d = {k: v for k, v in case.items() if k not in ("_obs", "_i")}
         d["kind"] = {"vcases": "modifier", "ecases": "e2e", "ucases": "stacks"}[kind]
         d["observed"] = case.get("_obs")
         return d
